@@ -245,6 +245,11 @@ func c06Bodies(c *Ctx, r *gen.R) error {
 				if k == 1 {
 					sp, special = 0, "full"
 				}
+				if hasRules(m) && k != 1 {
+					// a message with validation rules: only values that satisfy them travel (here: `required`,
+					// met by every fully populated value)
+					sp, special = 0, ""
+				}
 				vo := &gen.ValOpts{SparseP: sp, NonFinite: k%5 == 4}
 				v := gen.RandomMessage(rr, md, vo, 0)
 				if special == "default" {
@@ -308,6 +313,35 @@ func c06Bodies(c *Ctx, r *gen.R) error {
 		res.Corr("driver", "Lean driver failed: "+err.Error(), nil)
 		return nil
 	}
+	// the CONTRACT form of the same values against the same real schema: where the server's JSON departs from
+	// the documented mapping (recorded C05 findings) the real wire says nothing about the schema, but the
+	// documented form must still validate
+	specVerdict := map[int]map[string]any{}
+	{
+		var sops []map[string]any
+		var idx []int
+		for i, k := range all {
+			d := douts[i]
+			if mt, _ := d["modelled"].(bool); !mt || d["spec"] == nil {
+				continue
+			}
+			sops = append(sops, map[string]any{"op": "schema_valid", "components": k.doc.comps,
+				"schema": map[string]any{"$ref": "#/components/schemas/" + k.name}, "instances": []any{plainJSON(d["spec"])}})
+			idx = append(idx, i)
+		}
+		if len(sops) > 0 {
+			souts, err := drv.Run(sops)
+			if err != nil {
+				res.Corr("driver", "Lean driver failed: "+err.Error(), nil)
+				return nil
+			}
+			for j, i := range idx {
+				if vr := asList(souts[j]["results"]); len(vr) == 1 {
+					specVerdict[i], _ = vr[0].(map[string]any)
+				}
+			}
+		}
+	}
 	for i, k := range all {
 		o := outs[k]
 		populated := false
@@ -359,6 +393,15 @@ func c06Bodies(c *Ctx, r *gen.R) error {
 		case hasNonFinite(o["json"]) && !valid && isNonFiniteAt(o["json"], where):
 			key = "non_finite_float"
 			what = fmt.Sprintf("%s: a NaN / Infinity float is sent as a JSON string at %s, the schema says type number", k.name, where)
+		case specDiff != "" && specVerdict[i] != nil && specVerdict[i]["valid"] == false && !hasNonFinite(d["spec"]):
+			// the server departs from the mapping here, AND the documented form of the value is rejected too
+			sw := ""
+			if fl := asList(specVerdict[i]["failing"]); len(fl) > 0 {
+				sw = fmt.Sprint(fl[0])
+			}
+			key = "schema_rejects_contract:" + contextOf(k.x.req, k.full, "/"+sw)
+			what = fmt.Sprintf("%s: the documented JSON form of the value does not validate against the published schema at /%s", k.name, sw)
+			replay["contract_form"] = d["spec"]
 		case specDiff != "":
 			key = "wire_not_contract:" + ctx
 			what = fmt.Sprintf("%s: the server's JSON (which departs from the documented mapping, first at %s) does not validate against the published schema at /%s (valid=%v undeclared=%v)", k.name, specDiff, where, valid, undeclared)
@@ -380,6 +423,32 @@ func c06Bodies(c *Ctx, r *gen.R) error {
 	}
 	res.Programs += len(items)
 	return nil
+}
+
+// plainJSON turns the driver's tagged numbers ({"$int": text}, {"$float": text}) into JSON numbers.
+func plainJSON(v any) any {
+	switch x := v.(type) {
+	case map[string]any:
+		if len(x) == 1 {
+			for _, k := range []string{"$int", "$float"} {
+				if t, ok := x[k].(string); ok {
+					return json.Number(t)
+				}
+			}
+		}
+		out := map[string]any{}
+		for k, e := range x {
+			out[k] = plainJSON(e)
+		}
+		return out
+	case []any:
+		out := make([]any, len(x))
+		for i, e := range x {
+			out[i] = plainJSON(e)
+		}
+		return out
+	}
+	return v
 }
 
 func hasRules(m *ir.Message) bool {
